@@ -55,6 +55,30 @@ def mv_ops(part=None):
                 if int(got) != want:
                     b.violation(f'bounded:_mv_{opname}/{k}:value', f'_mv_{opname}{t} = {int(got)}, spec {want}',
                                 'contracts.logic_c:run_mv_core', {'op': opname, 'operands': list(t)}, function=f'kyupy.logic._mv_{opname}')
+    # per-element independence: the same tuples in other company (only unknown-free tuples in one array; tuples one at a time)
+    rs = np.random.RandomState(5)
+    for opname in ('not', 'or', 'and', 'xor'):
+        fn = getattr(logic, f'_mv_{opname}')
+        spec = A.OPS[8][opname]
+        for k in ((1,) if opname == 'not' else (1, 2, 3, 4)):
+            tuples = list(itertools.product(range(8), repeat=k))
+            definite = [t for t in tuples if not any(v in (1, 2) for v in t)]
+            singles = tuples if k <= 2 else [tuples[i] for i in rs.choice(len(tuples), 150, replace=False)]
+            for fam, groups in (('unknown-free', [definite]), ('single', [[t] for t in singles])):
+                for grp in groups:
+                    ins = [np.array([t[j] for t in grp], dtype=np.uint8) for j in range(k)]
+                    out = np.full(len(grp), 0xAA, dtype=np.uint8)
+                    try:
+                        fn(out, *ins)
+                    except Exception as e:  # noqa
+                        b.violation(f'bounded:_mv_{opname}/{k}:exception', f'_mv_{opname} on the {fam} family raised {e!r}', function=f'kyupy.logic._mv_{opname}')
+                        break
+                    bad = [(t, int(g)) for t, g in zip(grp, out) if int(g) != A.code_of(spec(*[A.val_of(v) for v in t]))]
+                    b.case((opname, k, fam, len(grp), grp[0]), sample={'fn': f'_mv_{opname}', 'family': fam, 'size': len(grp)})
+                    if bad:
+                        b.violation(f'bounded:_mv_{opname}/{k}:element-independence', f'_mv_{opname}{bad[0][0]} = {bad[0][1]} when evaluated in the {fam} family ({len(grp)} elements)',
+                                    'contracts.logic_c:run_mv_core', {'op': opname, 'operands': list(bad[0][0])}, function=f'kyupy.logic._mv_{opname}')
+                        break
     # wrappers: shapes, broadcasting, out=
     rng = np.random.RandomState(1)
     shapes = [((), ()), ((1,), (1,)), ((5,), (5,)), ((2, 3), (2, 3)), ((3, 1), (1, 4)), ((0,), (0,))]
@@ -86,6 +110,49 @@ def mv_ops(part=None):
                         b.violation(key + ':value', f'mv_{opname}(shapes {sh[:k]}, out={"array" if with_out else None}): wrong result or out not used',
                                     'bounded.ops_enum:run_wrapper_case', {'op': opname, 'shapes': [list(s) for s in sh[:k]], 'with_out': with_out, 'fill': fill, 'seed': 1},
                                     function=f'kyupy.logic.mv_{opname}')
+    # a result without out= is a fresh array (a later call does not change an earlier result); a strided / transposed out= view receives the result
+    for opname, k in (('not', 1), ('or', 2), ('and', 2), ('xor', 2)):
+        fn = getattr(logic, f'mv_{opname}')
+        spec = A.OPS[8][opname]
+
+        def want_of(ins):
+            bi = np.broadcast_arrays(*ins)
+            w = np.zeros(bi[0].shape, dtype=np.uint8)
+            for idx in np.ndindex(*bi[0].shape):
+                w[idx] = A.code_of(spec(*[A.val_of(int(x[idx])) for x in bi]))
+            return w
+        for sh in ((5,), (2, 3)):
+            a = [rng.randint(0, 8, size=sh).astype(np.uint8) for _ in range(k)]
+            c = [rng.randint(0, 8, size=sh).astype(np.uint8) for _ in range(k)]
+            b.case((f'mv_{opname}', 'fresh', sh), sample={'fn': f'mv_{opname}', 'case': 'two calls, first result kept'})
+            try:
+                r1 = fn(*a)
+                keep = np.array(r1, copy=True)
+                r2 = fn(*c)
+                if not np.array_equal(r1, keep) or not np.array_equal(keep, want_of(a)) or not np.array_equal(r2, want_of(c)) or any(np.shares_memory(r1, x) for x in a + c + [r2]):
+                    b.violation(f'bounded:mv_{opname}:result-not-fresh', f'mv_{opname}: the result of an earlier call (shape {sh}) changed or is shared after a later call with other operands',
+                                function=f'kyupy.logic.mv_{opname}', detail={'shape': list(sh)})
+            except Exception as e:  # noqa
+                b.violation(f'bounded:mv_{opname}:exception', f'mv_{opname} raised {e!r}', function=f'kyupy.logic.mv_{opname}')
+            for view in ('strided', 'transposed', 'column'):
+                ins = [rng.randint(0, 8, size=(3, 4)).astype(np.uint8) for _ in range(k)]
+                if view == 'strided':
+                    base = np.full((3, 8), 0x55, dtype=np.uint8)
+                    out = base[:, ::2]
+                elif view == 'transposed':
+                    base = np.full((4, 3), 0x55, dtype=np.uint8)
+                    out = base.T
+                else:
+                    base = np.full((3, 4, 2), 0x55, dtype=np.uint8)
+                    out = base[:, :, 1]
+                b.case((f'mv_{opname}', 'out-view', view), sample={'fn': f'mv_{opname}', 'out': view + ' view'})
+                try:
+                    r = fn(*ins, out=out)
+                    if not np.array_equal(out, want_of(ins)) or not np.array_equal(np.asarray(r), want_of(ins)):
+                        b.violation(f'bounded:mv_{opname}:out-view', f'mv_{opname}(out = a {view} uint8 view): the caller\'s array did not receive the result',
+                                    function=f'kyupy.logic.mv_{opname}', detail={'view': view})
+                except Exception as e:  # noqa
+                    b.violation(f'bounded:mv_{opname}:exception', f'mv_{opname}(out = {view} view) raised {e!r}', function=f'kyupy.logic.mv_{opname}')
     return b
 
 
@@ -143,4 +210,27 @@ def bp_ops(part=None):
                         b.violation(f'bounded:bp{m}v_{opname}/{k}:result-is-out', f'bp{m}v_{opname} does not return out', function=f'kyupy.logic.bp{m}v_{opname}')
                     if not alias and any(not np.array_equal(x, y) for x, y in zip(ins, ins0)):
                         b.violation(f'bounded:bp{m}v_{opname}/{k}:frame', f'bp{m}v_{opname} modified an operand', function=f'kyupy.logic.bp{m}v_{opname}')
+                # per-lane independence: the same tuples in other company (only unknown-free tuples; only unknown tuples; single lanes)
+                unk = (1, 2)
+                fams = [('unknown-free', [[t for t in tuples if not any(v in unk for v in t)]]),
+                        ('no-transition', [[t for t in tuples if all(v < 4 for v in t)]]),
+                        ('single', [[t] for t in (tuples if len(tuples) <= 64 else [tuples[i] for i in np.random.RandomState(m * 10 + k).choice(len(tuples), 100, replace=False)])])]
+                for fam, groups in fams:
+                    for grp in groups:
+                        if not grp:
+                            continue
+                        gin = [_pack(np.array([t[j] for t in grp], dtype=np.int64), nplanes) for j in range(k)]
+                        gout = np.full_like(gin[0], 0x5A)
+                        try:
+                            fn(gout, *gin)
+                        except Exception as e:  # noqa
+                            b.violation(f'bounded:bp{m}v_{opname}/{k}:exception', f'bp{m}v_{opname} on the {fam} family raised {e!r}', function=f'kyupy.logic.bp{m}v_{opname}')
+                            break
+                        got = _unpack(gout, len(grp))
+                        bad = [(t, int(g)) for t, g in zip(grp, got) if int(g) != A.code_of(spec(*[A.val_of(v, m) for v in t]))]
+                        b.case((m, opname, k, fam, len(grp), grp[0]), sample={'fn': f'bp{m}v_{opname}', 'family': fam, 'lanes': len(grp)})
+                        if bad:
+                            b.violation(f'bounded:bp{m}v_{opname}/{k}:lane-independence', f'bp{m}v_{opname}{bad[0][0]} = {bad[0][1]} when evaluated in the {fam} family ({len(grp)} lanes)',
+                                        function=f'kyupy.logic.bp{m}v_{opname}', detail={'operands': list(bad[0][0]), 'got': bad[0][1], 'family': fam})
+                            break
     return b
